@@ -36,7 +36,8 @@ func execPlan(bin string, p *harness.Plan, timeout time.Duration) *harness.Outco
 	defer os.Remove(out)
 	ctx, cancel := context.WithTimeout(context.Background(), timeout)
 	defer cancel()
-	cmd := exec.CommandContext(ctx, bin, "-test.run", "^TestRun$", "-test.timeout", "0", "-sim.plan="+pf.Name(), "-sim.out="+out, "-sim.work="+dir)
+	cmd := exec.CommandContext(ctx, bin, "-test.run", "^TestRun$", "-test.timeout", "0", "-sim.plan="+pf.Name(), "-sim.out="+out, "-sim.work="+dir,
+		"-sim.known="+filepath.Join(verifDir, "KNOWN_FINDINGS.json"))
 	cmd.Env = workerEnv()
 	cmd.Dir = verifDir
 	cmd.Run()
